@@ -9,7 +9,6 @@ import functools
 import itertools
 
 import dendropy
-from dendropy.datamodel.treemodel import Node
 
 from mc import ref, build
 from mc import universe as U
@@ -30,8 +29,15 @@ RULE = ("every tree of U(n) (all rooted shapes on n labelled leaves, n up to the
         "Node.extract_subtree started at every inner node; a case = one API call on a freshly built tree; "
         "non-trivial = tree has >= 3 leaves")
 ASSUMPTIONS = [
-    "reference induced subtree = mc/ref.induced on snapshots read from Node._child_nodes (clades = non-empty restrictions, "
-    "single-child nodes merged into the child with lengths added, None + x = x, None + None = None)",
+    "reference induced subtree = `filtered` in this module, cross-checked on every (tree, subset) against mc/ref.induced, on "
+    "snapshots read from Node._child_nodes (clades = non-empty restrictions, single-child nodes merged into the child, which "
+    "keeps its taxon and label, with lengths added, None + x = x, None + None = None; a root left with one child is replaced by it)",
+    "the nodes 'reported as removed' are the nodes whose restriction is empty; nodes spliced out by unifurcation suppression "
+    "are suppressed, not removed, and are not expected in the returned list",
+    "a taxa / labels argument documented as 'any iterable' may be a list, tuple, set, frozenset, dict view, TaxonNamespace, "
+    "iterator or generator",
+    "where the source already has an out-degree-one node and suppression is requested, results are compared modulo "
+    "out-degree-one nodes (the statement speaks of nodes *left* with a single child); with suppression declined they must all stay",
     "trees are compared as unordered labelled trees with lengths and node labels; child order never decides",
     "for unrooted trees with update_bipartitions=True the documented collapse of the basal bifurcation by "
     "encode_bipartitions is accepted: unrooted splits with merged lengths, leaf set, path lengths and node labels per clade are compared",
@@ -824,6 +830,12 @@ def run_core(chunk, ctx):
             if len(keep) == n:
                 ctx.count("subsets_all_kept")
             w = filtered(sn, frozenset(keep), True, False)
+            # harness self-check: the two reference implementations agree and the
+            # induced subtree preserves the path lengths of the source
+            for sup in (True, False):
+                r1, r2 = filtered(sn, frozenset(keep), True, sup), ref.induced(sn, frozenset(keep), sup)
+                if r1 != r2 or path_problem(r1, sn, frozenset(keep)):
+                    raise AssertionError("harness: reference models disagree on %r keep %r" % (shape, keep))
             if len(w[3]) == 1:
                 ctx.count("subsets_leaving_root_with_one_child")
             if has_unifurcation(w):
